@@ -443,8 +443,16 @@ impl Harness {
 
     fn violation(&mut self, name: &str, case: &Value, fail: &Fail) {
         // de-duplicate by (subcheck, key-or-message prefix)
-        let sig = format!("{}|{}", name, fail.key.clone().unwrap_or_else(|| fail.msg.chars().take(60).collect()));
+        // (numbers are removed from un-keyed messages so that one root cause gives one replay)
+        let sig = format!(
+            "{}|{}|",
+            name,
+            fail.key.clone().unwrap_or_else(|| fail.msg.chars().filter(|c| !c.is_ascii_digit() && *c != '-' && *c != '.').take(48).collect())
+        );
         if self.violations.iter().any(|(_, m)| m.starts_with(&sig)) {
+            return;
+        }
+        if self.violations.iter().filter(|(_, m)| m.starts_with(&format!("{}|", name))).count() >= 4 {
             return;
         }
         let path = self.write_replay(name, case, fail);
@@ -453,7 +461,7 @@ impl Harness {
         println!("  {}", fail.msg.replace('\n', "\n  "));
         let cs = serde_json::to_string(case).unwrap_or_default();
         println!("  case={}", if cs.len() > 600 { &cs[..600] } else { &cs });
-        self.violations.push((path, format!("{}|{}", sig, fail.msg)));
+        self.violations.push((path, format!("{}{}", sig, fail.msg)));
     }
 
     /// A generated-input sub-check. `prop` is evaluated on `cases` generated values spread over
